@@ -50,6 +50,77 @@ def _sample_ok(w, e: ast.AST, i_: str, pos: str, coord: str, trig: str) -> bool:
     return False
 
 
+def _loop_simple(f, w, pos: str, area: str, m: dict, lp, val) -> dict:
+    """the loop form with one append and one break"""
+    from ..guards import (parse_guard, prop_equiv, prop_implies, show, strip_iter)
+    i_ = src(lp.target)
+    inside = {id(n) for n in ast.walk(lp)}
+    apps = [e for e in w.events if e.kind == 'call' and id(e.node) in inside
+            and isinstance(e.node.func, ast.Attribute) and e.node.func.attr == 'append'
+            and src(e.node.func.value) == src(val) and len(e.node.args) == 1]
+    brs = [e for e in w.events if e.kind == 'break' and id(e.node) in inside]
+    if len(apps) != 1 or len(brs) != 1:
+        raise AnalysisError(f'compute_ray loop: {len(apps)} appends, {len(brs)} breaks')
+    ap, br = apps[0], brs[0]
+    cell = w.expand(ap.node.args[0], stop=[i_])
+    m['cell_text'] = src(cell)
+    cname = src(ap.node.args[0])
+    contains = f'{area}.contains({cname})'
+    from ..guards import f_and
+    # everything in the loop happens under the condition of reaching the loop
+    pre = ('true',)
+    for e_ in w.events:
+        if e_.kind == 'call' and e_.node is lp.iter:
+            pre = strip_iter(e_.guard)
+
+    def under(text: str):
+        return f_and(pre, parse_guard(text))
+    bg = strip_iter(br.guard)
+    m['cut_text'] = f'break when {show(bg)}'
+    m['cut'] = prop_equiv(bg, under(f'not {contains}')) is None
+    ag = strip_iter(ap.guard)
+    m['order'] = br.order < ap.order and prop_implies(ag, parse_guard(contains)) is None
+    ray = src(val)
+    m['dedupe_text'] = show(ag)
+    # (a) the append happens unless outside or a repeat of the previous cell
+    rep_t = f'{cname} == {ray}[-1]'
+    cands = [(f'{ray} and {rep_t}', True)]
+    # (b) ... or a cell seen before, kept in a set that every appended cell enters
+    for n_ in w.defs:
+        d_ = w.sole_binding(n_)
+        if d_ is None or d_[0] != 'value' or src(d_[1]) not in ('set()',):
+            continue
+        seen_t = f'{cname} in {n_}'
+        uses = [e_ for e_ in w.events if e_.kind == 'call'
+                and isinstance(e_.node.func, ast.Attribute)
+                and src(e_.node.func.value) == n_]
+        adds = [e_ for e_ in uses if e_.node.func.attr == 'add' and id(e_.node) in inside
+                and [src(a_) for a_ in e_.node.args] == [cname]]
+        if len(adds) != 1 or len(uses) != 1:
+            continue
+        gadd = strip_iter(adds[0].guard)
+        always = prop_equiv(gadd, under(f'{contains} and not ({seen_t})')) is None
+        when_unique = prop_equiv(
+            gadd, under(f'{contains} and unique and not ({seen_t})')) is None
+        if always or when_unique:
+            cands.append((seen_t, always))
+    for rep_, tracked_always in cands:
+        if prop_equiv(ag, under(f'{contains} and not (unique and {rep_})')) is None:
+            m['dedupe'], m['dedupe_conditional'] = True, True
+        elif tracked_always and \
+                prop_equiv(ag, under(f'{contains} and not ({rep_})')) is None:
+            m['dedupe'] = True
+    if isinstance(cell, ast.Call) and src(cell.func) == 'Position' and len(cell.args) == 2 \
+            and all(isinstance(a, ast.Call) and src(a.func) == 'round' and len(a.args) == 1
+                    for a in cell.args):
+        m['rounding'] = True
+        ys, xs = cell.args[0].args[0], cell.args[1].args[0]
+        m['sample_text'] = f'{src(ys)}; {src(xs)}'
+        m['samples'] = _sample_ok(w, ys, i_, pos, 'y', 'sin') and \
+            _sample_ok(w, xs, i_, pos, 'x', 'cos')
+    return m
+
+
 def ray_model(f, w, pos: str, area: str) -> dict:
     """what compute_ray does, from either spelling: the generator pipeline
     (zip of two sample streams -> Position(round, round) -> takewhile -> unique_everseen) or
@@ -64,74 +135,23 @@ def ray_model(f, w, pos: str, area: str) -> dict:
     val = rets[0].value
     loops = [n for n in ast.walk(f.node) if isinstance(n, ast.For) and src(n.iter) in COUNTS]
     if loops:
-        # ---- loop form
-        lp = loops[0]
-        i_ = src(lp.target)
-        inside = {id(n) for n in ast.walk(lp)}
-        apps = [e for e in w.events if e.kind == 'call' and id(e.node) in inside
-                and isinstance(e.node.func, ast.Attribute) and e.node.func.attr == 'append'
-                and src(e.node.func.value) == src(val) and len(e.node.args) == 1]
-        brs = [e for e in w.events if e.kind == 'break' and id(e.node) in inside]
-        if len(apps) != 1 or len(brs) != 1:
-            raise AnalysisError(f'compute_ray loop: {len(apps)} appends, {len(brs)} breaks')
-        ap, br = apps[0], brs[0]
-        cell = w.expand(ap.node.args[0], stop=[i_])
-        m['cell_text'] = src(cell)
-        cname = src(ap.node.args[0])
-        contains = f'{area}.contains({cname})'
-        from ..guards import f_and
-        # everything in the loop happens under the condition of reaching the loop
-        pre = ('true',)
-        for e_ in w.events:
-            if e_.kind == 'call' and e_.node is lp.iter:
-                pre = strip_iter(e_.guard)
-
-        def under(text: str):
-            return f_and(pre, parse_guard(text))
-        bg = strip_iter(br.guard)
-        m['cut_text'] = f'break when {show(bg)}'
-        m['cut'] = prop_equiv(bg, under(f'not {contains}')) is None
-        ag = strip_iter(ap.guard)
-        m['order'] = br.order < ap.order and prop_implies(ag, parse_guard(contains)) is None
-        ray = src(val)
-        m['dedupe_text'] = show(ag)
-        # (a) the append happens unless outside or a repeat of the previous cell
-        rep_t = f'{cname} == {ray}[-1]'
-        cands = [(f'{ray} and {rep_t}', True)]
-        # (b) ... or a cell seen before, kept in a set that every appended cell enters
-        for n_ in w.defs:
-            d_ = w.sole_binding(n_)
-            if d_ is None or d_[0] != 'value' or src(d_[1]) not in ('set()',):
-                continue
-            seen_t = f'{cname} in {n_}'
-            uses = [e_ for e_ in w.events if e_.kind == 'call'
-                    and isinstance(e_.node.func, ast.Attribute)
-                    and src(e_.node.func.value) == n_]
-            adds = [e_ for e_ in uses if e_.node.func.attr == 'add' and id(e_.node) in inside
-                    and [src(a_) for a_ in e_.node.args] == [cname]]
-            if len(adds) != 1 or len(uses) != 1:
-                continue
-            gadd = strip_iter(adds[0].guard)
-            always = prop_equiv(gadd, under(f'{contains} and not ({seen_t})')) is None
-            when_unique = prop_equiv(
-                gadd, under(f'{contains} and unique and not ({seen_t})')) is None
-            if always or when_unique:
-                cands.append((seen_t, always))
-        for rep_, tracked_always in cands:
-            if prop_equiv(ag, under(f'{contains} and not (unique and {rep_})')) is None:
-                m['dedupe'], m['dedupe_conditional'] = True, True
-            elif tracked_always and \
-                    prop_equiv(ag, under(f'{contains} and not ({rep_})')) is None:
-                m['dedupe'] = True
-        if isinstance(cell, ast.Call) and src(cell.func) == 'Position' and len(cell.args) == 2 \
-                and all(isinstance(a, ast.Call) and src(a.func) == 'round' and len(a.args) == 1
-                        for a in cell.args):
-            m['rounding'] = True
-            ys, xs = cell.args[0].args[0], cell.args[1].args[0]
-            m['sample_text'] = f'{src(ys)}; {src(xs)}'
-            m['samples'] = _sample_ok(w, ys, i_, pos, 'y', 'sin') and \
-                _sample_ok(w, xs, i_, pos, 'x', 'cos')
-        return m
+        old = None
+        try:
+            old = _loop_simple(f, w, pos, area, dict(m), loops[0], val)
+        except AnalysisError:
+            old = None
+        if old is not None and all(old[k] for k in ('cut', 'order', 'dedupe', 'rounding',
+                                                    'samples')):
+            return old
+        # more than one append/break, a shortcut for a repeated cell, bound comparisons
+        # instead of area.contains, ..: the general reader decides (DESIGN 24)
+        from ..rayloop import loop_model
+        try:
+            return loop_model(f.node, loops[0], pos, area, dict(m), _sample_ok)
+        except AnalysisError:
+            if old is not None:
+                return old
+            raise
     # ---- pipeline form: follow the chain of re-bindings of the stream variable
     e = w.expand(val)
     chain = []
